@@ -12,6 +12,8 @@ package c01
 
 import (
 	"bytes"
+	"encoding/hex"
+	"encoding/json"
 	"fmt"
 	"io"
 	"testing"
@@ -34,6 +36,7 @@ type EP struct {
 	Mut        string   `json:"mut"`         // none | widen | truncate | bitflip | byteset | claim
 	Claim      uint64   `json:"claim,omitempty"`      // claim: varint site Site of transaction WTx announces this value (even Site: a count site)
 	ListClaim  uint64   `json:"list_claim,omitempty"` // != 0: the list count announces this value (count_delta unused)
+	Overwrite  string   `json:"overwrite,omitempty"` // how the caller reuses its input buffers after the calls: "" / zero | invert | shift (the next message)
 	ElemExt    []bool   `json:"elem_ext,omitempty"`   // formats in which the reused element receiver decodes the inputs one after the other (cycled)
 	WTx        int      `json:"wtx"`         // widen: which transaction
 	Site       int      `json:"site"`        // widen: which varint site of it
@@ -285,7 +288,15 @@ func checkEP(ctx *pbt.Ctx, c EP) error {
 	// ---- A: NewTxFromStream at successive offsets: the library's own view of the stream ----
 	accepted := 0
 	off := 0
-	own := append([]byte{}, data...) // the library gets its own copy of the bytes
+	// every buffer handed to the library is the caller's: it is overwritten after the
+	// last call and only then are the objects looked at a last time (round 6)
+	var callerBufs [][]byte
+	lend := func(b []byte) []byte {
+		c := append([]byte{}, b...)
+		callerBufs = append(callerBufs, c)
+		return c
+	}
+	own := lend(data)
 	for i := 0; i < nTx+2; i++ {
 		g := guarded(func() (*bt.Tx, int64, error) {
 			tx, used, err := bt.NewTxFromStream(own[off:])
@@ -313,7 +324,7 @@ func checkEP(ctx *pbt.Ctx, c EP) error {
 	// ---- B: NewTxFromBytes accepts exactly when the first transaction is all there is ----
 	{
 		g := guarded(func() (*bt.Tx, int64, error) {
-			tx, err := bt.NewTxFromBytes(append([]byte{}, data...))
+			tx, err := bt.NewTxFromBytes(lend(data))
 			return tx, 0, err
 		})
 		tx, err := g.tx, g.err
@@ -342,7 +353,7 @@ func checkEP(ctx *pbt.Ctx, c EP) error {
 	}
 	for _, k := range kinds {
 		for _, populated := range []bool{false, true} {
-			src := k.mk(data)
+			src := k.mk(lend(data))
 			cr := &countingReader{r: src}
 			var reused *bt.Tx
 			if populated {
@@ -401,7 +412,7 @@ func checkEP(ctx *pbt.Ctx, c EP) error {
 
 	// ---- D: (*Txs).ReadFrom into a populated list ----
 	for _, k := range kinds {
-		src := k.mk(block)
+		src := k.mk(lend(block))
 		cr := &countingReader{r: src}
 		txs := bt.Txs{}
 		for i := 0; i < c.DirtyList; i++ {
@@ -458,10 +469,59 @@ func checkEP(ctx *pbt.Ctx, c EP) error {
 		return err
 	}
 
+	// ---- F: hex-string and JSON entry points over caller memory (first transaction, when it is one) ----
+	if accepted > 0 {
+		one := data[:items[0].d.Consumed]
+		hx := hex.EncodeToString(one)
+		if tx, err := bt.NewTxFromString(hx); err != nil {
+			return fmt.Errorf("NewTxFromString rejected (%v) the hex of what NewTxFromStream accepts: %s", err, head(one))
+		} else if _, verr := judge("NewTxFromString", 0, tx, int64(len(one)), nil); verr != nil {
+			return verr
+		}
+		doc := lend([]byte(`{"hex":"` + hx + `"}`))
+		jt := ref.ToLib(c.Dirty)
+		if err := json.Unmarshal(doc, jt); err != nil {
+			return fmt.Errorf("json.Unmarshal into a populated Tx rejected (%v) {\"hex\": ...} of what NewTxFromStream accepts: %s", err, head(one))
+		} else if _, verr := judge("json.Unmarshal {\"hex\"} into a populated Tx", 0, jt, int64(len(one)), nil); verr != nil {
+			return verr
+		}
+	}
+
+	// ---- the caller reuses its buffers ----
+	for _, b := range callerBufs {
+		switch c.Overwrite {
+		case "invert":
+			for i := range b {
+				b[i] = ^b[i]
+			}
+		case "shift": // the next message arrives in the same buffer
+			if len(b) > 1 {
+				first := b[0]
+				copy(b, b[1:])
+				b[len(b)-1] = first ^ 0x5a
+			}
+			for i := range b {
+				b[i] += 0x31
+			}
+		default:
+			for i := range b {
+				b[i] = 0
+			}
+		}
+	}
+	ctx.Label("input-buffers-overwritten")
+
 	// ---- retained objects: looked at again only now ----
 	for _, h := range out {
-		if err := verify("after the last call, "+h.what, h.tx, h.item); err != nil {
+		if err := verify("after the last call and after the caller overwrote its input buffers, "+h.what, h.tx, h.item); err != nil {
 			return err
+		}
+	}
+	if len(out) > 0 && items[out[0].item].d.Minimal {
+		it := items[out[0].item]
+		std := ref.Encode(it.d.Tx, false)
+		if got, want := out[0].tx.TxID(), hex.EncodeToString(ref.Reverse(sha256d(std))); got != want {
+			return fmt.Errorf("after the caller overwrote its input buffers, TxID() of the first object handed out (%s) = %s, the reversed SHA-256d of the standard encoding it was parsed from is %s", out[0].what, got, want)
 		}
 	}
 	ctx.Labelf("objects-retained=%s", cls(len(out)))
@@ -649,7 +709,8 @@ func consumedOf(items []refItem) int {
 }
 
 func epOpts() gen.TxOpts {
-	return gen.TxOpts{MinIn: 0, MaxIn: 3, MinOut: 0, MaxOut: 3, MaxScript: 300, ScriptEdges: []int{0, 1, 75, 76, 252, 253, 254}}
+	// script lengths cross any plausible copy-avoidance threshold: 127/128, 252/253, 1000 (and 65535.. via bigScript)
+	return gen.TxOpts{MinIn: 0, MaxIn: 3, MinOut: 0, MaxOut: 3, MaxScript: 1100, ScriptEdges: []int{0, 1, 75, 76, 127, 128, 129, 252, 253, 254, 1000, 1024}}
 }
 
 func genEP(t *rapid.T) EP {
@@ -669,6 +730,7 @@ func genEP(t *rapid.T) EP {
 		c.RepIn = append(c.RepIn, 0)
 		c.RepOut = append(c.RepOut, 0)
 	}
+	bigScript(t, &c.Txs[0], 60) // a 65535..70000-byte script now and then
 	bigOdds := 400 // the 65535/65536 shapes are enumerated on every run; generated ones add variety
 	if pbt.Thorough() {
 		bigOdds = 100
@@ -727,6 +789,7 @@ func genEP(t *rapid.T) EP {
 		c.ListClaim = genClaim(t)
 	}
 	c.ElemExt = rapid.SliceOfN(rapid.Bool(), 1, 6).Draw(t, "elem_ext")
+	c.Overwrite = rapid.SampledFrom([]string{"zero", "invert", "shift"}).Draw(t, "overwrite")
 	c.WTx = rapid.IntRange(0, 3).Draw(t, "wtx")
 	c.Site = rapid.IntRange(0, 12).Draw(t, "site")
 	c.Width = rapid.SampledFrom([]int{3, 5, 9}).Draw(t, "width")
